@@ -6,7 +6,7 @@ P="$1"; PKG="$2"; shift 2; CHECKS="${*:-$P}"
 cd /verif
 # round 2: SRC=/tmp/seed2_$P and the two changes are stored as -C / -D
 SRC="${SRC:-/tmp/seed_$P}"; R2="${R2:-}"
-name() { if [ "$R2" = 5 ]; then case $1 in A) echo I;; B) echo J;; esac; elif [ "$R2" = 4 ]; then case $1 in A) echo G;; B) echo H;; esac; elif [ "$R2" = 3 ]; then case $1 in A) echo E;; B) echo F;; esac; elif [ -n "$R2" ]; then case $1 in A) echo C;; B) echo D;; esac; else echo $1; fi; }
+name() { if [ "$R2" = 6 ]; then case $1 in A) echo K;; B) echo L;; esac; elif [ "$R2" = 5 ]; then case $1 in A) echo I;; B) echo J;; esac; elif [ "$R2" = 4 ]; then case $1 in A) echo G;; B) echo H;; esac; elif [ "$R2" = 3 ]; then case $1 in A) echo E;; B) echo F;; esac; elif [ -n "$R2" ]; then case $1 in A) echo C;; B) echo D;; esac; else echo $1; fi; }
 for X in A B; do
   [ -f $SRC/out/patch$X.diff ] || continue
   D=seeded/$P-$(name $X); mkdir -p $D
